@@ -6,7 +6,48 @@ Require Import Base Strings Builtins Interp.
 Inductive kont := KCatch (h:error -> Comp value) (k:value -> Comp value) | KThen (k:value -> Comp value).
 Record frame := { fr_tid : option positive; fr_comp : Comp value; fr_konts : list kont }.
 Inductive event := EB (d:nat) (t:positive) (sp:span) | EA (d:nat) (t:positive) (sp:span) (kind:N).
-Record world := { w_in : list (list N); w_out : list N }.
+(* an open handle: which file, where, how it was opened, whether it has been closed; the BYTES live on the disk, so two handles on one file see each other *)
+Record handle := { h_path : list N; h_pos : Z; h_mode : Files.mode; h_closed : bool }.
+Record world := { w_in : list (list N); w_out : list N; w_disk : list (list N * list N); w_handles : list (positive * handle); w_nexth : positive }.
+(* a world with the given input and output and the files / handles of w *)
+Definition with_io (w:world) (i:list (list N)) (o:list N) : world := {| w_in := i; w_out := o; w_disk := w_disk w; w_handles := w_handles w; w_nexth := w_nexth w |}.
+Definition world_start (stdin:list (list N)) (disk:list (list N * list N)) : world := {| w_in := stdin; w_out := []; w_disk := disk; w_handles := []; w_nexth := 1 |}.
+Definition path_eqb (a b:list N) : bool := if list_eq_dec N.eq_dec a b then true else false.
+Fixpoint disk_get (d:list (list N * list N)) (p:list N) : option (list N) := match d with [] => None | (q, c) :: r => if path_eqb q p then Some c else disk_get r p end.
+Fixpoint disk_set (d:list (list N * list N)) (p c:list N) : list (list N * list N) :=
+  match d with [] => [(p, c)] | (q, c0) :: r => if path_eqb q p then (q, c) :: r else (q, c0) :: disk_set r p c end.
+Fixpoint handle_get (l:list (positive * handle)) (i:positive) : option handle := match l with [] => None | (j, x) :: r => if Pos.eqb j i then Some x else handle_get r i end.
+Fixpoint handle_set (l:list (positive * handle)) (i:positive) (x:handle) : list (positive * handle) :=
+  match l with [] => [(i, x)] | (j, y) :: r => if Pos.eqb j i then (j, x) :: r else (j, y) :: handle_set r i x end.
+Definition os_error (sp:span) (errno:Z) : error := {| e_spans := [sp]; e_vals := [VInt 5; VInt c_os; VInt errno] |}.
+Definition val_of_result (r:Files.result) : value := match r with Files.RBytes b => VBytes b | Files.RInt n => VInt n end.
+(* what a request to the outside world does: the new world and the answer (a value, or a language-level failure) *)
+Definition wstep (w:world) (op:worldop) : world * (value + error) :=
+  match op with
+  | WRead => match w_in w with [] => (w, inl VNil) | l :: r => (with_io w r (w_out w), inl (VStr l)) end
+  | WPrint s => (with_io w (w_in w) (w_out w ++ s ++ [10%N]), inl VNil)
+  | WOpen sp p m =>                                   (* Files.fopen on what the disk holds under that name; a missing file in a mode that needs it: ENOENT *)
+      match Files.fopen m (disk_get (w_disk w) p) with
+      | None => (w, inr (os_error sp 2))
+      | Some s => let i := w_nexth w in
+          ({| w_in := w_in w; w_out := w_out w; w_disk := disk_set (w_disk w) p (Files.content s);
+              w_handles := (i, {| h_path := p; h_pos := Files.pos s; h_mode := m; h_closed := false |}) :: w_handles w; w_nexth := Pos.succ i |}, inl (VFun (FFile i)))
+      end
+  | WFile sp i o =>                                   (* FilesTotal.xstep on (bytes on disk, position of the handle) *)
+      match handle_get (w_handles w) i with
+      | None => (w, inr (os_error sp 9))
+      | Some hd =>
+          let c := match disk_get (w_disk w) (h_path hd) with Some c => c | None => [] end in
+          let '(xs', r) := FilesTotal.xstep {| FilesTotal.xs := {| Files.content := c; Files.pos := h_pos hd; Files.fmode := h_mode hd |}; FilesTotal.xclosed := h_closed hd |} o in
+          let w' := {| w_in := w_in w; w_out := w_out w; w_disk := disk_set (w_disk w) (h_path hd) (Files.content (FilesTotal.xs xs'));
+                       w_handles := handle_set (w_handles w) i {| h_path := h_path hd; h_pos := Files.pos (FilesTotal.xs xs'); h_mode := h_mode hd; h_closed := FilesTotal.xclosed xs' |};
+                       w_nexth := w_nexth w |} in
+          match r with
+          | FilesTotal.XVal v => (w', inl (val_of_result v))
+          | FilesTotal.XNil => (w', inl VNil)
+          | FilesTotal.XErr e => (w, inr (os_error sp e)) end
+      end
+  end.
 Record dbg := { depth : nat; dstack : list (list positive); events : list event (* newest first *) }.
 Record mstate := { m_heap : heap; m_req : PositiveMap.t positive; m_stack : list frame (* top first; the last one is the head coroutine *);
                    m_world : world; m_dbg : dbg }.
@@ -98,11 +139,7 @@ Definition frame_step (h:heap) (w:world) (f:frame) : fstep :=
   | PeekLit t k => match get h t with Some c => FCont (upd (k (lit_of (c_ast c)))) (set_peeked h t) w | None => FCont (upd (Raise {| e_spans := []; e_vals := [] |})) h w end
   | Call p k => FCont {| fr_tid := fr_tid f; fr_comp := proc_body p; fr_konts := KThen k :: fr_konts f |} h w
   | Catch c hd k => FCont {| fr_tid := fr_tid f; fr_comp := c; fr_konts := KCatch hd k :: fr_konts f |} h w
-  | World WRead k =>
-      match w_in w with
-      | [] => FCont (upd (k VNil)) h w
-      | l :: r => FCont (upd (k (VStr l))) h {| w_in := r; w_out := w_out w |} end
-  | World (WPrint s) k => FCont (upd (k VNil)) h {| w_in := w_in w; w_out := w_out w ++ s ++ [10%N] |}
+  | World op k => let (w', r) := wstep w op in FCont (upd (match r with inl v => k v | inr e => Raise e end)) h w'
   end.
 
 Fixpoint closes (d:nat) (l:list positive) (h:heap) (k:N) : list event :=
@@ -158,5 +195,11 @@ Fixpoint run (fuel:nat) (s:mstate) : outcome * mstate :=
 Definition init (prog:ast) (stdin:list (list N)) : mstate :=
   let (h, t) := alloc heap0 prog {| funs := []; args := [] |} in
   {| m_heap := h; m_req := PositiveMap.empty _; m_stack := [{| fr_tid := None; fr_comp := call (PFormat (VThunk t) false); fr_konts := [] |}];
-     m_world := {| w_in := stdin; w_out := [] |}; m_dbg := {| depth := 0; dstack := []; events := [] |} |}.
+     m_world := world_start stdin []; m_dbg := {| depth := 0; dstack := []; events := [] |} |}.
 Definition run_main (fuel:nat) (prog:ast) (stdin:list (list N)) : outcome * mstate := run fuel (init prog stdin).
+(* the same with files on the disk when the program starts *)
+Definition init_fs (prog:ast) (stdin:list (list N)) (disk:list (list N * list N)) : mstate :=
+  let (h, t) := alloc heap0 prog {| funs := []; args := [] |} in
+  {| m_heap := h; m_req := PositiveMap.empty _; m_stack := [{| fr_tid := None; fr_comp := call (PFormat (VThunk t) false); fr_konts := [] |}];
+     m_world := world_start stdin disk; m_dbg := {| depth := 0; dstack := []; events := [] |} |}.
+Definition run_main_fs (fuel:nat) (prog:ast) (stdin:list (list N)) (disk:list (list N * list N)) : outcome * mstate := run fuel (init_fs prog stdin disk).
